@@ -167,7 +167,15 @@ func (h *mesh3) run(q query, manifold bool) answer {
 	j := mod(q.J, 3)
 	switch q.Op {
 	case "find1":
-		return answer{S: "find1" + h.set(m.Find(t[j]))}
+		// an answer is the caller's own: every reader reorders and extends what it got
+		res := m.Find(t[j])
+		ans := h.set(res)
+		for a, b := 0, len(res)-1; a < b; a, b = a+1, b-1 {
+			res[a], res[b] = res[b], res[a]
+		}
+		res = append(res, t)
+		_ = res
+		return answer{S: "find1" + ans}
 	case "find2":
 		return answer{S: "find2" + h.set(m.Find(t[j], t[(j+1)%3]))}
 	case "find3":
@@ -361,7 +369,14 @@ func (h *mesh2) run(q query, manifold bool) answer {
 	p := model2d.XY(q.P[0], q.P[1])
 	switch q.Op {
 	case "find1":
-		return answer{S: "find1" + h.set(m.Find(s[j]))}
+		res := m.Find(s[j])
+		ans := h.set(res)
+		for a, b := 0, len(res)-1; a < b; a, b = a+1, b-1 {
+			res[a], res[b] = res[b], res[a]
+		}
+		res = append(res, s)
+		_ = res
+		return answer{S: "find1" + ans}
 	case "find2":
 		return answer{S: "find2" + h.set(m.Find(s[j], s[1-j]))}
 	case "findx":
